@@ -486,7 +486,19 @@ fn witness_setters(ctx: &mut Ctx, r: &mut Rng, _i: u64) {
             ns.add(pick);
         }
         ps.add(&ps_pool[g.r.usize(2)]);
-        pd.add(&pd_pool[g.r.usize(2)]);
+        // likewise a datum built with a constructor and the same datum read back from its bytes
+        let dpick = &pd_pool[g.r.usize(2)];
+        if g.r.below(3) == 0 {
+            match guard(|| PlutusData::from_bytes(dpick.to_bytes())) {
+                Ok(Ok(parsed)) => {
+                    ctx.bucket("setters.datum-parsed-copy");
+                    pd.add(&parsed);
+                }
+                _ => pd.add(dpick),
+            }
+        } else {
+            pd.add(dpick);
+        }
     }
     let bytes = match guard(|| {
         let mut ws = TransactionWitnessSet::new();
